@@ -174,7 +174,7 @@ def tolerance(case, agg):
     return tol
 
 
-def call(cube, agg, case, rma, shared=None):
+def call(cube, agg, case, rma, shared=None, via="shortcut"):
     """Run one shared aggregate on a ccube or xcube.  Argument objects are fresh copies unless
     `shared` (a dict filled on first use) is given: then every call receives the SAME objects, as a
     caller who keeps its arrays around would pass them."""
@@ -187,6 +187,15 @@ def call(cube, agg, case, rma, shared=None):
         w = gen.weight_arg(case["weights"])
         f = gen.fact_arg(case["fact"])
     ig = case["ignore_missing"]
+    if via == "calculate_untraced" and type(cube).__name__ == "ccube":
+        # the same aggregate through its function object, built without its timing bookkeeping
+        from catii import ffuncs
+
+        if agg == "count":
+            fn = ffuncs.ffunc_count(w, case["n"] if not cube.dims else None, ig, rma, tracing=False)
+        else:
+            fn = getattr(ffuncs, "ffunc_" + agg)(f, w, ig, rma, tracing=False)
+        return cube.calculate([fn])[0]
     if agg == "count":
         return cube.count(weights=w, N=case["n"] if not cube.dims else None, ignore_missing=ig, return_missing_as=rma)
     return getattr(cube, agg)(f, weights=w, ignore_missing=ig, return_missing_as=rma)
